@@ -324,3 +324,13 @@ def oracle(c, ir):
 
 def known(c, fail):
     return None
+
+# ---- enc tie: the two record layouts of the theorems (Proofs/CastFacts.v enc_d4 / enc_d5) on the same members
+ENC_TIE_IMPORTS = ['Proofs.CastFacts']
+def enc_tie_term(c):
+    from framework import cz, cbytes
+    if c['kind'] != 'member' or not (0 <= c['code'] < 256):
+        return None
+    h, i = cbytes(c['header']), cbytes(c['info'])
+    return ('(enc_d4 %s %s %s ++ enc_d5 %s %s %s)%%list' % (cz(c['code']), h, i, cz(c['code']), h, i),
+            enc_member(4, c['code'], c['header'], c['info']) + enc_member(5, c['code'], c['header'], c['info']))
